@@ -180,6 +180,7 @@ fn adapters<B: crate::backend::Backend, P: crate::prims::Prims>(opts: &Opts, rep
                     continue; // RSA signing is slow
                 }
                 let mut rng = Rng::derive(opts.seed, &stream, idx);
+                crate::noise::sprinkle::<B>();
                 let (msg, footer, aad) = (rng.bytes(ml), rng.bytes(fl), rng.bytes(al));
                 let class = format!("{}.adapter-through-tag", B::NAME);
                 rep.case(&class, fnv_parts(&[B::NAME.as_bytes(), &msg, &footer, &aad]), true);
@@ -230,6 +231,7 @@ fn adapters<B: crate::backend::Backend, P: crate::prims::Prims>(opts: &Opts, rep
                 continue;
             }
             let mut rng = Rng::derive(opts.seed, &stream, idx);
+            crate::noise::sprinkle::<B>();
             let mut lens = [5usize, 3, if B::HAS_AAD { 2 } else { 0 }];
             lens[axis] = len;
             let (msg, footer, aad) = (rng.bytes(lens[0]), rng.bytes(lens[1]), rng.bytes(lens[2]));
@@ -269,6 +271,7 @@ fn adapters<B: crate::backend::Backend, P: crate::prims::Prims>(opts: &Opts, rep
             continue;
         }
         let mut rng = Rng::derive(opts.seed, &stream, idx);
+        crate::noise::sprinkle::<B>();
         let (msg, footer, aad) = (rng.bytes(ml), rng.bytes(fl), rng.bytes(al));
         let key: [u8; 32] = rng.arr();
         let nonce = rng.bytes(B::LOCAL_NONCE);
